@@ -27,9 +27,10 @@ NPAR = max(2, min(12, vlib.NCPU - 2))
 RUN_TIMEOUT = 120
 
 ENGINES = {
-    "quick": [("ei", ["-ei"]), ("eg-O2", ["-eg", "-O2"])],
-    "thorough": [("ei", ["-ei"]), ("eg-O0", ["-eg", "-O0"]), ("eg-O1", ["-eg", "-O1"]), ("eg-O2", ["-eg", "-O2"]),
-                 ("eg-O3", ["-eg", "-O3"]), ("el", ["-el"]), ("eb", ["-eb"])],
+    # (name, options before the source file, execution option: everything after -e? is passed to the compiled program)
+    "quick": [("ei", [], "-ei"), ("eg-O2", ["-O2"], "-eg")],
+    "thorough": [("ei", [], "-ei"), ("eg-O0", ["-O0"], "-eg"), ("eg-O1", ["-O1"], "-eg"), ("eg-O2", ["-O2"], "-eg"),
+                 ("eg-O3", ["-O3"], "-eg"), ("el", ["-O2"], "-el"), ("eb", ["-O2"], "-eb")],
 }
 
 # TLC jobs: (name, module, cfg, nparts, simulate walks or None, depth, env)
@@ -183,7 +184,7 @@ def render_expr(c, i):
             if ctx == "L":
                 for d in c["lv"]:
                     L.append("    " + decl_text(d, False))
-            x = ren("(" + c["r"] + ")" if c["sg"][-1].startswith(",:") else c["r"])
+            x = ren("(" + c["r"] + ")" if "," in c["r"] else c["r"])     # a comma must not split the macro arguments
             L.append("    printf(\"%d %s %%s %%d %%llx\", TN(%s), (int)sizeof(%s), U64(%s));" % (i, ctx, x, x, x))
             for d in finals(c):
                 L.append("    printf(\" %%llx\", U64(%s%s));" % (ren(d["n"]), ".f" if d["k"] == "lvbf" else ""))
@@ -204,9 +205,9 @@ def stmt_expected(c):
 
 def render_stmt(c, i):
     L = ["static int c%d(void) {" % i]
-    for d in c["decl"]:
-        L.append("  " + d)
-    L += ["  " + l for l in c["body"]]
+    for k in sorted(c["cnt"]):
+        L.append("  int c%d = 0;" % k)
+    L.append("  " + c["body"])
     L.append("  return 0;")
     L.append("}")
     return L
@@ -279,11 +280,12 @@ def run_engines(c2m, engines, cases, ids, tag, extra_engines=(), keep=False):
                 os.unlink(exe)
             except OSError:
                 pass
-    for name, cmd in list(engines) + list(extra_engines):
+    for eng in list(engines) + list(extra_engines):
+        name, cmd = eng[0], eng[1]
         if callable(cmd):
             res[name] = cmd(fn, want_rc)
             continue
-        rc, o, e = vlib.sh([c2m, fn] + cmd, timeout=RUN_TIMEOUT)
+        rc, o, e = vlib.sh([c2m] + cmd + [fn, eng[2]], timeout=RUN_TIMEOUT)
         got, done = parse_out(o)
         if rc == want_rc and done:
             st = "ok"
@@ -339,7 +341,7 @@ def judge(c2m, engines, cases, tag, stats, extra_engines=()):
     """Batches -> per-case verdicts.  A batch that some compiler rejects because of _Static_assert is re-run with the named
     assertions removed (the failure is remembered); a batch that fails as a whole otherwise is halved until the culprit
     is alone; every case with a mismatching field is re-run in a second round before it is reported (rule 5)."""
-    eng_names = [n for n, _ in list(engines) + list(extra_engines)]
+    eng_names = [e[0] for e in list(engines) + list(extra_engines)]
     sa_fail = collections.defaultdict(set)     # case index -> compilers whose _Static_assert failed
     seq = [0]
 
@@ -398,6 +400,9 @@ def judge(c2m, engines, cases, tag, stats, extra_engines=()):
         e = expected(c)
         gst, gout = res["gcc"][0], res["gcc"][1].get(i, {})
         gdis = [(ctx, ef, gout.get(ctx)) for ctx, ef in e.items() if gout.get(ctx) != ef]
+        if gst == "reject" and "internal compiler error" in res["gcc"][2]:
+            stats.cnt["dropped_reference_compiler_internal_error"] += 1
+            return
         if gst != "ok" or gdis or "gcc" in sa_fail.get(i, ()):
             stats.cnt["spec_disagrees"] += 1
             stats.spec_dis.append((c, gdis, gst if gst != "ok" or gdis else "static assertion failed", res["gcc"][2]))
@@ -426,23 +431,57 @@ def judge(c2m, engines, cases, tag, stats, extra_engines=()):
 K_GENERIC = "cexpr:generic:narrow_controlling_type_promoted"
 K_BOOL = "cexpr:conv_to_bool:value_not_0_or_1"
 K_UAC = "cexpr:uac:ulong_llong_gives_ulong"
+K_DIV0 = "cexpr:reject:division_by_zero_in_unevaluated_operand"
+K_DIVMIN = "cexpr:compiler_crash:min_div_minus1_in_unevaluated_operand"
+K_ANDSWAP = "cexpr:crash:gen_O2_zero_extension_of_and_with_constant_first"
+K_BFALIAS = "cexpr:bitfield:bool_member_initialiser_alias"
+K_LOSTCOPY = "cstmt:gen_O2:postincrement_loop_test_lost_copy"
 CTXNAME = {"C": "const_fold", "R": "runtime", "L": "local", "S": "stmt", "*": "program"}
 NARROW = {"B", "c", "sc", "uc", "s", "us"}
+O2GROUP = {"eg-O2", "eg-O3", "el", "eb"}
 
 
 def classify(fails):
-    """fails: list of Stats.fail rows.  Returns [(key, row)].  A mismatch in a tree is attributed to the innermost
-    node signature that already fails alone (depth 1) in the same context, else to the root."""
+    """fails: list of Stats.fail rows.  Returns [(key, row)].
+    Rows that match the exact trigger of a defect already analysed get that defect's key (so that a listed finding does
+    not hide anything else); every other row gets a key naming context, differing fields and the operator signature:
+    a mismatch in a tree is attributed to the innermost node signature that already fails alone (depth <= 1) in the same
+    context, else to the root."""
     keyed = []
     base = set()     # (ctxname, sig) failing at depth <= 1
     rows = sorted(fails, key=lambda r: r[0].get("d", 0))
+    engs = collections.defaultdict(set)      # engines failing on a case for a reason other than the _Generic type name
     for r in rows:
         c, eng, ctx, fields, ef, got, st = r
+        if not (fields == ["type"] and ef and got and ef[0] in NARROW and got[0] == "i"):
+            engs[id(c)].add(eng)
+    for r in rows:
+        c, eng, ctx, fields, ef, got, st = r
+        only_o2 = engs[id(c)] <= O2GROUP
         if c["fam"] == "stmt":
-            keyed.append(("cstmt:%s:%s" % ("+".join(fields), c["sig"]), r))
+            # the -O2 generator drops the copy needed by `cK++ < n` as a loop test (value before the increment is compared)
+            if only_o2 and "postinc_loop" in c["ft"] and fields == ["events"]:
+                keyed.append((K_LOSTCOPY, r))
+            else:
+                keyed.append(("cstmt:%s:%s" % ("+".join(fields), c["sig"]), r))
             continue
         cn = CTXNAME[ctx]
         fields = list(fields)
+        sgs = c["sg"]
+        if ctx == "*":
+            if st.startswith("reject") and "Division by zero" in st and c["uu"]:
+                keyed.append((K_DIV0, r))
+                continue
+            if st.startswith(("crash(-8)", "crash(136)")) and c["uu"] and any(s.startswith(("/", "%")) for s in sgs):
+                keyed.append((K_DIVMIN, r))
+                continue
+            if st.startswith("crash") and only_o2 and any(s.startswith("&") for s in sgs):
+                keyed.append((K_ANDSWAP, r))
+                continue
+            if st.startswith("crash(-8)") and "ei" not in engs[id(c)] and any(s == "bf:B1" for s in sgs) \
+                    and any(s.startswith(("/", "%")) for s in sgs):
+                keyed.append((K_BFALIAS, r))      # the _Bool member reads 0 instead of 1: division by zero at run time
+                continue
         # (1) c2mir's _Generic promotes its controlling expression: only the printed type NAME of a narrow-typed result is affected
         if "type" in fields and ef and got and ef[0] in NARROW and got[0] == "i":
             keyed.append((K_GENERIC, r))
@@ -456,10 +495,15 @@ def classify(fails):
         # (3) usual arithmetic conversions of (unsigned long, long long): same representation, only the type name differs
         if fields == ["type"] and ef[0] == "ull" and got[0] == "ul" and any(
                 s.split(":")[-1] in ("ul,ll", "ll,ul") or s.startswith("?::") and s.split(",")[-2:] in (["ul", "ll"], ["ll", "ul"])
-                for s in c["sg"]):
+                for s in sgs):
             keyed.append((K_UAC, r))
             continue
-        sigs = [s for s in c["sg"] if not s.startswith(("leaf:", "enum", "lit:", "bf:"))] or c["sg"]
+        # (4) a local struct { _Bool f : 1; } is initialised through alias 'b' and read through alias 'i': generated code only
+        if ctx == "L" and eng != "ei" and "ei" not in engs[id(c)] and any(s == "bf:B1" or ":bfB1," in s for s in sgs) \
+                and set(fields) <= {"value", "final"}:
+            keyed.append((K_BFALIAS, r))
+            continue
+        sigs = [s for s in sgs if not s.startswith(("leaf:", "enum", "lit:", "bf:"))] or sgs
         sig = sigs[-1]
         if c["d"] <= 1:
             base.add((cn, sig))
@@ -468,8 +512,7 @@ def classify(fails):
                 if (cn, s) in base:
                     sig = s
                     break
-        kind = "+".join(f for f in fields)
-        keyed.append(("cexpr:%s:%s:%s" % (cn, kind, sig), r))
+        keyed.append(("cexpr:%s:%s:%s" % (cn, "+".join(fields), sig), r))
     return keyed
 
 
@@ -482,7 +525,8 @@ def gen_cases(jobs, stats, maxpar=None):
         for p in range(nparts):
             e = {"PART": p, "NPARTS": nparts}
             e.update(env)
-            kw = dict(module=module, cfg=cfg, workers=2 if sim else 4, env=e, heap="3g", timeout=2400)
+            # CStmt's Run recurses once per execution step: it needs a deep Java stack
+            kw = dict(module=module, cfg=cfg, workers=2 if sim else 4, env=e, heap="3g -Xss64m" if module == "CStmt" else "3g", timeout=2400)
             if sim:
                 kw["env"] = dict(e, PART=0, NPARTS=1)
                 kw.update(simulate=max(1, sim // nparts), depth=depth, seed_=vlib.seed() * 1000 + p)
@@ -504,7 +548,7 @@ def gen_cases(jobs, stats, maxpar=None):
             if "u" in o:
                 stats.cnt["dropped_%s_%s" % (fam, o["u"] if isinstance(o["u"], str) else "undefined")] += 1
                 continue
-            k = (o["c"], o["r"], json.dumps(o["lv"], sort_keys=True)) if fam == "expr" else json.dumps(o["body"])
+            k = (o["c"], o["r"], json.dumps(o["lv"], sort_keys=True)) if fam == "expr" else o["body"]
             if k in seen:
                 stats.cnt["duplicates_" + fam] += 1
                 continue
@@ -516,7 +560,7 @@ def gen_cases(jobs, stats, maxpar=None):
 
 def describe(c):
     if c["fam"] == "stmt":
-        return " ".join(c["body"])[:400]
+        return c["body"][:500]
     s = "`%s`" % (c["c"] or c["r"])
     if c["lv"]:
         s += " with " + " ".join(decl_text(d, False) for d in c["lv"])
@@ -578,7 +622,7 @@ def run(tier, jobs=None, mutate=None, extra_engines=(), engines=None):
     ck.setc("states", di)
     ck.setc("transitions", st)
     ck.setc("traces_validated_against_impl", total)
-    ck.setc("engines", ["gcc -std=c11 -O0 (reference)"] + ["c2m " + " ".join(cmd) for _, cmd in engines])
+    ck.setc("engines", ["gcc -std=c11 -O0 (reference)"] + ["c2m " + " ".join(e[1] + [e[2]]) for e in engines])
     ck.setc("tlc_elapsed_s", round(t_tlc, 1))
     ck.setc("exhaustive", "BFS jobs enumerate every tree within the bounds of their .cfg; *_sim jobs are TLC -simulate walks seeded by VERIF_SEED")
     ck.setc("rule", "each TLC-generated case carries the result type/value (CExpr.tla) or ev() sequence and return value (CStmt.tla); the "
